@@ -60,7 +60,7 @@ def gen_dataset(r):
     lo = min([v for row in rows for v in row], default=0)
     dtype = r.choice(DTYPES) if (lo >= 0 and r.random() < 0.6) else r.choice(['int64', 'int32', 'int16', 'float64'])
     return {'op': 'dataset', 'cols': cols, 'rows': rows, 'dom': dom, 'weights': weights, 'projs': projs, 'dtype': dtype,
-            'vectorise_first': r.random() < 0.5}
+            'vectorise_first': r.random() < 0.5, 'other_order_first': r.random() < 0.5}
 
 
 def impl_dataset(q):
@@ -79,6 +79,8 @@ def impl_dataset(q):
         for p in q['projs']:
             if q.get('vectorise_first'):
                 D.datavector()          # a history on one object: the parent is vectorised before it is projected
+            if q.get('other_order_first') and len(p) >= 2:
+                D.project(list(reversed(p))).datavector()      # ... or projected onto the same attributes in another order first
             D = D.project(p)
         vec = D.datavector()
         return ('ok', [list(x) for x in zip(D.domain.attrs, D.domain.shape)], int(D.records), [float(v) for v in vec])
@@ -205,6 +207,9 @@ def gen_domain(r):
     k = r.randint(1, 5)
     names = r.sample(['a', 'b', 'c', 'd', 'e', 'f'], k)
     dom0 = [[n, r.choice([1, 2, 3, 4, 5])] for n in names]
+    if r.random() < 0.08:
+        # attribute sizes whose product leaves the range of a machine integer (2**63): a Domain only does arithmetic on sizes
+        dom0 = [[n, r.choice([2 ** 16, 10 ** 5, 2 ** 20, 3 ** 13, 2 ** 31 - 1, 10])] for n in names]
     pre = gen_pre(r, dom0)
     dom = derive_spec(dom0, pre)         # the reference value of the derived domain: what the model is given
     names = [a for a, _ in dom]
